@@ -8,6 +8,7 @@ import importlib
 import multiprocessing as mp
 import os
 import signal
+import sys
 import time
 import traceback
 from collections import Counter
@@ -166,6 +167,12 @@ def _child(conn, job):
         conn.send(r)
     finally:
         conn.close()
+        # a forked worker leaves through os._exit, which skips atexit: remove the scratch directory of the property module here
+        tmp = getattr(sys.modules.get(job[0]), "_TMP", None)
+        if tmp:
+            import shutil
+
+            shutil.rmtree(tmp, ignore_errors=True)
 
 
 _KNOWN = None
